@@ -1,6 +1,6 @@
 #!/bin/bash
 # runs every check's quick (or $TIER) command on the current tree; prints one verdict line per check
-cd /verif
+cd "$(dirname "$0")/.."
 for i in $(seq -w 1 20); do
   id=C$i
   s=$(date +%s)
